@@ -16,6 +16,9 @@ func TestVerifRecC20(t *testing.T) {
 	cfg := os.Getenv("VERIF_CFG")
 	w := newVWriter(dir, "C20-"+cfg+"-curve", 4)
 	defer w.close()
+	// values handed out by the tables and marshallers are used and scribbled over FIRST: the constants dumped below must
+	// still equal their definitions afterwards
+	vfresh(w, cfg, "all")
 	ev := func(op, name string) vev { return vev{"op": op, "cfg": cfg, "name": name} }
 	fe := func(name string, e *field.Element) {
 		x := ev("fe", name)
